@@ -151,6 +151,22 @@ func ZZ_C20_HandlerOnce() {
 	if !batch {
 		zzverif.Assert(!ctx.Done(), "handler-context-cancelled-while-channel-open")
 	}
+	// traffic for the open channel before it ends: nothing, a data frame, a window update
+	if !batch {
+		var pre pmpx.Message
+		var err error
+		switch zzverif.Choice(3) {
+		case 1:
+			pre, err = pmpx.BuildChannelData(pmpx.NewMessageWriterBuffer(ZZ_AcquireBuffer()), id, zzverif.Bytes(1))
+		case 2:
+			pre, err = pmpx.BuildChannelWindow(pmpx.NewMessageWriterBuffer(ZZ_AcquireBuffer()), id, zzverif.Int32())
+		}
+		zzverif.Assume(err == nil)
+		if pre.Unwrap().Raw() != nil {
+			zzverif.Assert(e.c.receiveMessage(pre, false).OK(), "frame-for-open-channel-accepted")
+			zzverif.Assert(!ctx.Done(), "handler-context-cancelled-by-ordinary-traffic")
+		}
+	}
 	// how the channel ends
 	how := zzverif.Choice(3)
 	if batch {
